@@ -91,6 +91,14 @@ CHECKS = {
          "pre-filter are satisfied iff every inserted requirement is; run against bag.py/query.types() of /repo with "
          "all up-sets generated by <= 3 types as oracle",
          "4 C20", "Coq proof by induction over insertion histories + correspondence + up-set oracle"),
+ "C11": ("query generation modelled (assign_variables incl. unfold_tree, the chronology worklist, :depends vs "
+         ":depends?, via/subtypeOf unions, TypeUnion/Bag reductions reused from C20) together with a set semantics of "
+         "the generated BGP fragment and a verified matcher: for tree and DAG tasks the query matches iff the task's "
+         "steps can be assigned as the property says (C11_query_spec, C11_task_spec), self-match, monotonicity, absent "
+         "operator/type never match, every tested predicate is emitted; on /repo the generated SPARQL text is read back "
+         "into a pattern list, evaluated by the verified matcher, by rdflib on the flattened pattern and by rdflib on the "
+         "deployed query, in URI, nested-list and string-shortcut notations under the by_* switches",
+         "4 C11", "Coq proof (gen = declarative assignment; Kahn completeness) + correspondence + three-way verdict oracle"),
  "C12": ("add_workflow modelled on top of the add_expr model: for every well-formed workflow (any sharing, any listing "
          "order, passthrough on/off) the map covers every resource with one node each, every tool's subgraph is the flow "
          "of its expression fed by its producers (own source nodes with passthrough off), inputs/outputs marked, and with "
